@@ -305,8 +305,9 @@ func c12Run(t *testing.T, sc c12Scenario, f *c12Fault, ref *c12Ref) *c12Ref {
 				viol("429-not-requeued-after-delay", fmt.Sprintf("a 429 answer with Retry-After: 7 must re-queue the parent after 7s; AddAfter calls=%d delay=%v", addAfter, afterDelay), sr)
 			}
 		case hit && !strings.HasPrefix(f.Kind, "race-"):
-			tolerated := f.Kind == "410" // "already gone" belongs to the documented benign class
-			if !tolerated && addRL == 0 {
+			// a 410 answer is not "object already gone": the object the request addressed still exists
+			// in the store afterwards, so it is a hard fault like any other
+			if addRL == 0 {
 				viol("hard-fault-not-reported:"+f.Target+":"+f.Kind+":"+faultedVerb(sr), fmt.Sprintf("a %s fault hit this sync, yet the worker did not re-queue the parent with back-off (no error reported)", f.Kind), sr)
 			}
 			if addRL > 0 && forget > 0 {
